@@ -56,8 +56,8 @@ signal.signal(signal.SIGALRM, _alarm)
 def mk_geo(g):
     if g["kind"] == "area":
         return geometry.AreaDefinition("a", "a", "a", g["proj"], g["w"], g["h"], tuple(g["extent"]))
-    lons = np.array(g["lons"], dtype=np.float64).reshape(g["shape"])
-    lats = np.array(g["lats"], dtype=np.float64).reshape(g["shape"])
+    lons = np.array(g["lons"], dtype=g.get("dtype", "float64")).reshape(g["shape"])
+    lats = np.array(g["lats"], dtype=g.get("dtype", "float64")).reshape(g["shape"])
     if g["kind"] == "grid":
         return geometry.GridDefinition(lons, lats)
     return geometry.SwathDefinition(lons, lats)
@@ -235,9 +235,15 @@ def run_case(case):
     out["red"] = red
 
     runs = []
+    tgt0 = tgt
     for cfg in case["configs"]:
         o = {"cfg": cfg}
         kw = dict(reduce_data=cfg["reduce"], nprocs=cfg["nprocs"], segments=cfg["segments"])
+        tgt = tgt0
+        if cfg.get("cache_target") and isinstance(tgt0, geometry.AreaDefinition):
+            # history on one object: an earlier get_lonlats(cache=True) makes every later (sliced) call read the stored arrays
+            tgt = mk_geo(case["target"])
+            tgt.get_lonlats(cache=True)
         if TIMEOUTS[0] >= 3:
             # the implementation hangs: do not spend the whole budget waiting; what was observed so far is reported
             o.update({"skipped": True, "info1": {"error": "Skipped"}, "infok": {"error": "Skipped"},
